@@ -12,7 +12,7 @@
     check can still run it when a proof is broken. *)
 From Coq Require Import ZArith List Bool.
 Import ListNotations.
-Open Scope Z_scope.
+Local Open Scope Z_scope.
 
 (** A plain [IntInterval]: empty, or non-empty with optional (inclusive) bounds. *)
 Inductive itv := Emp | NE (lo hi : option Z).
